@@ -321,6 +321,12 @@ def run(tier):
     c.add("traces_validated_against_impl", judged)
     c.set("records_by_kind", {k: sum(1 for r in records if r["k"] == k) for k in KINDS})
     c.set("real_magnitude_branch_census", tagcount)
+    rew = [r for r in records if r["k"] == "reward"]
+    with_rem = sum(1 for r in rew if int(r["in"]["rem"]) > 0 and int(r["in"]["len"]) > 2)
+    with_srem = sum(1 for r in rew if int(r["in"]["secondary"]) % int(r["in"]["len"]) > 0)
+    c.set("reward_records_with_remainder", {"primary": with_rem, "secondary": with_srem})
+    if with_rem < 2 or with_srem < 2:
+        raise V.ToolError("vacuous run: reward records without remainders (%d primary, %d secondary)" % (with_rem, with_srem))
     missing = [t for fam in REAL_TAGS.values() for t in fam if tagcount.get(t, 0) == 0]
     if missing:
         raise V.ToolError("vacuous real-magnitude run: branches never taken by the generated inputs: %s" % missing)
